@@ -4,7 +4,7 @@ import collections, json, os, random
 from .. import terms, vmfam, vmreplay, vmtrace
 from ..tlaparse import iter_dump, to_json
 
-QUICK_FAMILIES = ['stack', 'adt', 'optlist', 'control', 'text', 'logic', 'arith', 'env', 'hash']
+QUICK_FAMILIES = ['stack', 'dipstack', 'adt', 'optlist', 'control', 'text', 'logic', 'arith', 'env', 'hash']
 REPO_TESTS = ['tests/unit_tests/test_michelson/test_repl/test_opcodes.py', 'tests/unit_tests/test_michelson/test_repl/test_macros.py',
               'tests/unit_tests/test_michelson/test_repl/test_lambda.py', 'tests/unit_tests/test_michelson/test_repl/test_execution.py']
 
